@@ -84,6 +84,27 @@ def run_scenario(sid, timeout=900):
     return rc, lines
 
 
+def _report(lines):
+    """the demonstration's own findings: the lines after its FAIL marker"""
+    for i, l in enumerate(lines):
+        if l.strip().startswith("FAIL"):
+            return [x.strip() for x in lines[i + 1:i + 13]]
+    return []
+
+
+def kf_hash_read_names(inputs):
+    """known-finding class: scenario C05_hash_read_names fails, and everything it reports is reads missing from read_assignments.tsv
+    whose names all start with '#' (no unexpected reads, no other table, no duplicate records, no statistics mismatch)"""
+    import re
+    if not isinstance(inputs, dict) or inputs.get("scenario") != "C05_hash_read_names" or not inputs.get("report"):
+        return False
+    for line in inputs["report"]:
+        m = re.match(r".* read_assignments\.tsv: \d+ distinct reads reported, \d+ input reads pass the filters \(missing \[(.*)\], unexpected \[\]\)$", line)
+        if not m or not all(n.strip().strip("'\"").startswith("#") for n in m.group(1).split(",") if n.strip()):
+            return False
+    return True
+
+
 def replay_scenario(d):
     sid = d["inputs"]["scenario"]
     rc, lines = run_scenario(sid)
@@ -101,7 +122,7 @@ def _make(pid):
         for sid, rc, lines in results:
             if rc == 0:
                 continue
-            v = {"obligation": "%s.scenarios.%s" % (pid, sid), "inputs": {"scenario": sid}, "observed": lines[-12:],
+            v = {"obligation": "%s.scenarios.%s" % (pid, sid), "inputs": {"scenario": sid, "report": _report(lines)}, "observed": lines[-12:],
                  "required": "the demonstration's checks of the property's sentence pass (exit 0)", "replay_call": "contracts.c_scenarios:replay_scenario"}
             if rc != 1:
                 # not the demonstration's own verdict (crash, time-out, environment): reported, but not as a violation
